@@ -81,6 +81,10 @@ def p_expr(e, twin):
         return f"[{p_expr(e['x'], twin)} for {e['v']} in IT({e['k']})]"
     if k == "const":
         return repr(e["c"])
+    if k == "acc":
+        return f"A({e['k']})"
+    if k == "bcall":
+        return f"{e['fn']}({p_expr(e['x'], twin)})"
     if k == "tupd":
         return "(" + ", ".join(p_expr(x, twin) for x in e["elts"]) + ",)"
     raise ValueError(k)
@@ -212,7 +216,7 @@ def p_stmt(s, ind, twin):
     raise ValueError(k)
 
 
-HEADER = "from harness.worlds.rt2 import E, C, R, IT, U, O, CM, F, B, SEEN, ScriptExc\n" \
+HEADER = "from harness.worlds.rt2 import E, C, R, IT, U, O, CM, F, B, SEEN, A, ScriptExc\n" \
          "def BX(name, value):\n    B(name, value)\n    return value\n"
 
 
